@@ -187,7 +187,11 @@ func (r *runner) queryInstances(st *State) []qinst {
 		for _, x := range os {
 			exp := "none"
 			if x.Expiration != nil {
-				exp = tickOf(x.Expiration)
+				if t, ok := MarketTick(time.Unix(x.Expiration.Seconds, int64(x.Expiration.Nanos)).UTC()); ok {
+					exp = fmt.Sprint(t)
+				} else {
+					exp = "offlattice"
+				}
 			}
 			o = append(o, fmt.Sprint(x.Id)+"\t"+strings.Join([]string{NameOfBech32(x.Seller), x.BatchDenom, x.AskDenom, x.AskAmount, fmt.Sprint(x.DisableAutoRetire), exp}, "|"))
 		}
